@@ -26,6 +26,17 @@
 (*             const CSRConstant value or -1                               *)
 (*             regs  <<kind, size, fields, atomic, n>> kind "sto" | "sta", *)
 (*                   size 1..72 bits, n fixed position in the bank or -1   *)
+(*   romsrc  how the "rom" region gets its contents: "words" a word list   *)
+(*           given to add_rom; "file" a binary FILE packed by get_mem_data *)
+(*           (bus data width, the CPU's endianness - as the Builder does   *)
+(*           for the BIOS) given to add_rom; "init" the same image loaded  *)
+(*           afterwards with init_rom (as the Builder does)                *)
+(*   rome    endianness of the CPU for which the image is packed ("big"    *)
+(*           only with the stub CPU on a 32-bit bus: 64-bit big-endian     *)
+(*           packing is the listed finding C14-get-mem-data-64-big)        *)
+(*   CSR-mapped memories may be WIDER than the CSR bus (memw 40 / 64 on a  *)
+(*   32-bit CSR bus: two CSR words per memory word) and DEEPER than a CSR  *)
+(*   page (8 x 512 with paging 1024: LiteX adds a <mem>_page register).    *)
 (*                                                                         *)
 (* MODE "grid":   ordinary (exhaustive) run: every combination of          *)
 (*                std x dw x ic x cdw x paging x ord (144) with a          *)
@@ -67,7 +78,11 @@ Core == [std : Stds, dw : Dws, ic : Ics, cdw : Cdws, paging : Pagings, ord : Ord
 GridP0(cdw) == <<-1, 0, 8, 16, 0, 5,
                  << <<"sto", 8, 0, 0, -1>>, <<"sto", 40, 0, 1, -1>>, <<"sta", 20, 1, 0, -1>>, <<"sto", 72, 0, 0, -1>>,
                     <<"sta", 70, 0, 0, -1>>, <<"sto", 13, 1, 0, -1>>, <<"sto", 64, 0, 0, -1>>, <<"sta", 33, 0, 0, -1>> >> >>
-GridP1      == <<3, 0, 0, 0, 0, -1, << <<"sto", 33, 0, 0, 4>>, <<"sta", 9, 0, 0, -1>>, <<"sto", 17, 0, 1, -1>> >> >>
+GridP1(k, rot) ==
+  LET mem == IF k.cdw = 32 THEN (IF rot % 2 = 0 THEN <<64, 4>> ELSE <<40, 8>>) ELSE <<0, 0>>      \* wide CSR memory
+  IN <<3, 0, mem[1], mem[2], 0, -1, << <<"sto", 33, 0, 0, 4>>, <<"sta", 9, 0, 0, -1>>, <<"sto", 17, 0, 1, -1>> >> >>
+(* a CSR memory deeper than a page (needs the page register) where the page is smallest *)
+Deep(p, k) == IF k.paging = 1024 THEN [p EXCEPT ![4] = 512] ELSE p
 GridP0irq(cdw) == <<-1, 1, 8, 16, 0, 5,
                  << <<"sto", 8, 0, 0, -1>>, <<"sto", 40, 0, 1, -1>>, <<"sta", 20, 1, 0, -1>>, <<"sto", 72, 0, 0, -1>>,
                     <<"sta", 70, 0, 0, -1>>, <<"sto", 13, 1, 0, -1>>, <<"sto", 64, 0, 0, -1>>, <<"sta", 33, 0, 0, -1>> >> >>
@@ -81,7 +96,9 @@ GridCfg(k) ==
   IN [std |-> k.std, dw |-> k.dw, ic |-> k.ic, cdw |-> k.cdw, paging |-> k.paging, ord |-> k.ord,
       caw |-> 14 + (rot % 3), cpu |-> cpu, ctrl |-> 1, timer |-> 1, ident |-> rot % 2, rsv0 |-> 0, csrb |-> csrb,
       mems |-> << <<"sram", 4096, 0, 256, "ram">>, <<"rom", ramb, 0, 128, "rom">>, <<"ram2", 16384, 32768, 192, "ram">> >>,
-      ps |-> << (IF cpu = "stub" THEN GridP0irq(k.cdw) ELSE GridP0(k.cdw)), GridP1 >>]
+      romsrc |-> (CASE rot % 3 = 0 -> "words" [] rot % 3 = 1 -> "file" [] OTHER -> "init"),
+      rome |-> (IF cpu = "stub" /\ k.dw = 32 /\ k.ord = "big" THEN "big" ELSE "little"),
+      ps |-> << Deep(IF cpu = "stub" THEN GridP0irq(k.cdw) ELSE GridP0(k.cdw), k), GridP1(k, rot) >>]
 
 ---------------------------------------------------------------------------
 (* memory-image cases *)
@@ -90,6 +107,7 @@ ImgFiles(dw) ==
   \cup {<< <<0, n>>, <<16, m>> >> : n \in {1, 4, 7, 8}, m \in {1, 3, 8, 9}}   \* two files, the second 16 bytes in
   \cup {<< <<8, n>> >> : n \in {1, 5, 8}}                                     \* a file 8 bytes above the origin
   \cup {<< <<4, n>> >> : n \in {1, 4, 6}}                                     \* a file 4 bytes above the origin
+  \cup {<< <<16, m>>, <<0, n>> >> : n \in {1, 4, 8}, m \in {1, 3, 9}}         \* two files, listed highest address first
 ImgCases ==
   {<<dw, e, m, off, fs>> : dw \in Dws, e \in Ords, m \in {"file", "dict", "json"}, off \in {0, 4096},
                            fs \in ImgFiles(64)}
@@ -104,9 +122,12 @@ Init ==
 
 Misc ==
   /\ phase = "misc"
-  /\ \E caw \in Caws, ctrl \in {0, 1}, timer \in {0, 1}, ident \in {0, 1}, rsv \in 0..3, n \in 1..3 :
+  /\ \E caw \in Caws, ctrl \in {0, 1}, timer \in {0, 1}, ident \in {0, 1}, rsv \in 0..3, n \in 1..3,
+        rs \in {"words", "file", "init"}, re \in Ords :
        /\ (c.cpu = "stub" => timer = 1)           \* finalize needs at least one interrupt once a CPU has a vector
-       /\ c' = c @@ [caw |-> caw, ctrl |-> ctrl, timer |-> timer, ident |-> ident, rsv0 |-> (IF rsv = 0 THEN 1 ELSE 0)]
+       /\ (re = "big" => c.cpu = "stub" /\ c.dw = 32)
+       /\ c' = c @@ [caw |-> caw, ctrl |-> ctrl, timer |-> timer, ident |-> ident, rsv0 |-> (IF rsv = 0 THEN 1 ELSE 0),
+                     romsrc |-> rs, rome |-> re]
        /\ np' = n
   /\ phase' = "csr" /\ UNCHANGED <<ps, cur, nregs>>
 
@@ -129,11 +150,13 @@ MapRam2 == phase = "ram2" /\ MemChoice("ram2", "ram", "periph")
 UsedLocs == {ps[i][1] : i \in 1..Len(ps)}
 StartPeriph ==
   /\ phase = "periph" /\ Len(ps) < np
-  /\ \E loc \in {-1, -1, 1, 2, 3, 5, 9}, irq \in {0, 1}, mem \in {<<0, 0, 0>>, <<8, 16, 0>>, <<8, 64, 1>>, <<32, 8, 0>>, <<16, 4, 0>>},
+  /\ \E loc \in {-1, -1, 1, 2, 3, 5, 9}, irq \in {0, 1}, mem \in {<<0, 0, 0>>, <<8, 16, 0>>, <<8, 64, 1>>, <<32, 8, 0>>, <<16, 4, 0>>,
+                                                            <<64, 4, 0>>, <<40, 8, 0>>, <<64, 8, 1>>, <<8, 512, 0>>, <<16, 512, 1>>},
         k \in {-1, 5, 1000}, n \in 1..5 :
        /\ (loc >= 0 => loc \notin UsedLocs)
        /\ (irq = 1 => c.cpu = "stub")
-       /\ (mem[1] > c.cdw => FALSE)               \* only memories not wider than the CSR bus (one CSR word per memory word)
+       /\ (mem[1] > c.cdw => c.cdw = 32)          \* wider than the CSR bus: two 32-bit CSR words per memory word
+       /\ (mem[2] = 512 => c.paging = 1024)       \* deep memories where they need the page register
        /\ cur' = <<loc, irq, mem[1], mem[2], mem[3], k, <<>> >>
        /\ nregs' = n
   /\ phase' = "regs" /\ UNCHANGED <<c, ps, np>>
